@@ -177,13 +177,236 @@ theorem ccWrite_frame {s s' : State} {i : Nat} {addrs : List Word} {data : List 
       · exact writeEvictStep_frame h
       · exact writeL1Step_frame h
 
+/-! ### MVP-8.0's cache controller -/
+
+theorem inL3_frame {s : State} {addrs : List Word} {v : Bool × State} (h : inL3 s addrs = .ok v) : Frame s v.2 := by
+  unfold inL3 at h
+  simp only [bind, Except.bind, pure, Except.pure] at h
+  repeat' split at h
+  all_goals first | cases h | skip
+  all_goals first | exact ⟨rfl, rfl, rfl⟩ | skip
+
+theorem pushLineToL3_frame {s : State} {a : Int} {line : List Byte} {v : Option LineCache.Line × State}
+    (h : pushLineToL3 s a line = .ok v) : Frame s v.2 := by
+  unfold pushLineToL3 at h
+  simp only [bind, Except.bind, pure, Except.pure] at h
+  repeat' split at h
+  all_goals first | cases h | skip
+  all_goals first | exact ⟨rfl, rfl, rfl⟩ | skip
+
+theorem writeToL3_frame {s s' : State} {a : Int} {data : List Byte} (h : writeToL3 s a data = .ok s') : Frame s s' := by
+  unfold writeToL3 at h
+  simp only [bind, Except.bind, pure, Except.pure] at h
+  repeat' split at h
+  all_goals first | cases h | skip
+  all_goals first | exact ⟨rfl, rfl, rfl⟩ | skip
+
+set_option hygiene false in
+/-- the shape of all the step functions of the two coroutines: unfold, split everything, close every leaf by `rfl`, by a
+lemma about the step it ends in, or by such a lemma behind `inL3` / `pushLineToL3` -/
+macro "cc80" "[" ls:term,* "]" : tactic => do
+  let mut acc ← `(tactic| first
+      | exact ⟨rfl, rfl, rfl⟩
+      | (refine (inL3_frame ?_).trans ⟨rfl, rfl, rfl⟩; assumption)
+      | (refine (pushLineToL3_frame ?_).trans ⟨rfl, rfl, rfl⟩; assumption)
+      | (refine (writeToL3_frame ?_).trans ⟨rfl, rfl, rfl⟩; assumption)
+      | (refine ((writeToL3_frame ?_).trans ⟨rfl, rfl, rfl⟩).pre ⟨rfl, rfl, rfl⟩; assumption))
+  for l in ls.getElems do
+    acc ← `(tactic| first
+      | ($acc:tactic)
+      | exact (($l) h).pre ⟨rfl, rfl, rfl⟩
+      | (refine (($l) h).pre ((inL3_frame ?_).trans ⟨rfl, rfl, rfl⟩); assumption)
+      | (refine (($l) h).pre ((pushLineToL3_frame ?_).trans ⟨rfl, rfl, rfl⟩); assumption)
+      | (refine (($l) h).pre (inL3_frame ?_); assumption)
+      | (refine (($l) h).pre (pushLineToL3_frame ?_); assumption))
+  `(tactic| (
+    simp only [bind, Except.bind, pure, Except.pure] at h
+    repeat' split at h
+    all_goals first | cases h | skip
+    all_goals ($acc:tactic)))
+
+theorem r80L1Step_frame {s s' : State} {i : Nat} {a c : Int} {data : List Byte} {r : Option (List Byte)}
+    (h : r80L1Step s i a c data = .ok (s', r)) : Frame s s' := by
+  unfold r80L1Step at h
+  cc80 []
+
+theorem r80FromL1_frame {s s' : State} {i : Nat} {a : Int} {addrs : List Word} {r : Option (List Byte)}
+    (h : r80FromL1 s i a addrs = .ok (s', r)) : Frame s s' := by
+  unfold r80FromL1 at h
+  cc80 [r80L1Step_frame]
+
+theorem r80Sync_frame {s s' : State} {i : Nat} {a : Int} {addrs : List Word} {r : Option (List Byte)}
+    (h : r80Sync s i a addrs = .ok (s', r)) : Frame s s' := by
+  unfold r80Sync at h
+  cc80 [r80FromL1_frame]
+
+theorem r80Fill_frame {s s' : State} {i : Nat} {a : Int} {addrs : List Word} {c : Int} {r : Option (List Byte)}
+    (h : r80Fill s i a addrs c = .ok (s', r)) : Frame s s' := by
+  unfold r80Fill at h
+  simp only [bind, Except.bind, pure, Except.pure] at h
+  split at h
+  · cases h
+  · split at h
+    · cases h; exact ⟨rfl, rfl, rfl⟩
+    · split at h
+      · cases h
+      · split at h
+        · cases h
+        · split at h
+          · cases h
+          · rename_i v hv
+            have f := pushLineToL3_frame hv
+            repeat' split at h
+            all_goals exact (r80Sync_frame h).pre (f.trans ⟨rfl, rfl, rfl⟩)
+
+theorem r80Lock_frame {s s' : State} {i : Nat} {a : Int} {addrs : List Word} {r : Option (List Byte)}
+    (h : r80Lock s i a addrs = .ok (s', r)) : Frame s s' := by
+  unfold r80Lock l3AlignOf at h
+  cc80 [r80Fill_frame]
+
+theorem r80Mem_frame {s s' : State} {i : Nat} {a : Int} {addrs : List Word} {c : Int} {r : Option (List Byte)}
+    (h : r80Mem s i a addrs c = .ok (s', r)) : Frame s s' := by
+  unfold r80Mem at h
+  cc80 [r80Lock_frame]
+
+theorem r80L3_frame {s s' : State} {i : Nat} {a : Int} {addrs : List Word} {c : Int} {r : Option (List Byte)}
+    (h : r80L3 s i a addrs c = .ok (s', r)) : Frame s s' := by
+  unfold r80L3 at h
+  simp only [bind, Except.bind, pure, Except.pure] at h
+  split at h
+  · cases h
+  · split at h
+    · cases h; exact ⟨rfl, rfl, rfl⟩
+    · split at h
+      · cases h
+      · rename_i v hv
+        have f := inL3_frame hv
+        split at h
+        · exact (r80Sync_frame h).pre f
+        · exact (r80Mem_frame h).pre f
+
+theorem r80Pend_frame {s s' : State} {i : Nat} {a : Int} {addrs : List Word} {nf : Bool} {ps : List Nat}
+    {r : Option (List Byte)} (h : r80Pend s i a addrs nf ps = .ok (s', r)) : Frame s s' := by
+  unfold r80Pend at h
+  cc80 [r80FromL1_frame, r80L3_frame]
+
+theorem ccRead80_frame {s s' : State} {i : Nat} {addrs : List Word} {r : Option (List Byte)}
+    (h : ccRead80 s i addrs = .ok (s', r)) : Frame s s' := by
+  unfold ccRead80 at h
+  cc80 [r80Pend_frame, r80L3_frame, r80Mem_frame, r80Lock_frame, r80Fill_frame, r80FromL1_frame, r80L1Step_frame]
+
+theorem w80L1Step_frame {s s' : State} {i : Nat} {a : Int} {addrs : List Word} {data : List Byte} {c : Int} {r : Bool}
+    (h : w80L1Step s i a addrs data c = .ok (s', r)) : Frame s s' := by
+  unfold w80L1Step at h
+  cc80 []
+
+theorem w80ToL1_frame {s s' : State} {i : Nat} {a : Int} {addrs : List Word} {data : List Byte} {r : Bool}
+    (h : w80ToL1 s i a addrs data = .ok (s', r)) : Frame s s' := w80L1Step_frame h
+
+theorem w80AfterL1_frame {s s' : State} {i : Nat} {a : Int} {addrs : List Word} {data : List Byte} {c : Int} {r : Bool}
+    (h : w80AfterL1 s i a addrs data c = .ok (s', r)) : Frame s s' := by
+  unfold w80AfterL1 at h
+  cc80 [w80ToL1_frame]
+
+theorem w80PushL1_frame {s s' : State} {i : Nat} {a : Int} {addrs : List Word} {data : List Byte} {l1Addr : Int}
+    {l1Data : List Byte} {r : Bool} (h : w80PushL1 s i a addrs data l1Addr l1Data = .ok (s', r)) : Frame s s' := by
+  unfold w80PushL1 at h
+  cc80 [w80ToL1_frame]
+
+theorem w80Sync_frame {s s' : State} {i : Nat} {a : Int} {addrs : List Word} {data : List Byte} {r : Bool}
+    (h : w80Sync s i a addrs data = .ok (s', r)) : Frame s s' := by
+  unfold w80Sync at h
+  cc80 [w80PushL1_frame]
+
+theorem w80Fetch_frame {s s' : State} {i : Nat} {a : Int} {addrs : List Word} {data : List Byte} {r : Bool}
+    (h : w80Fetch s i a addrs data = .ok (s', r)) : Frame s s' := by
+  unfold w80Fetch l3AlignOf at h
+  simp only [bind, Except.bind, pure, Except.pure] at h
+  split at h
+  · cases h
+  · split at h
+    · cases h
+    · split at h
+      · cases h; exact ⟨rfl, rfl, rfl⟩
+      · split at h
+        · cases h
+        · split at h
+          · cases h
+          · split at h
+            · cases h
+            · rename_i v hv
+              have f := pushLineToL3_frame hv
+              split at h
+              · split at h
+                · cases h
+                · cases h; exact f.trans ⟨rfl, rfl, rfl⟩
+              · exact (w80Sync_frame h).pre f
+
+theorem w80L3_frame {s s' : State} {i : Nat} {a : Int} {addrs : List Word} {data : List Byte} {c : Int} {r : Bool}
+    (h : w80L3 s i a addrs data c = .ok (s', r)) : Frame s s' := by
+  unfold w80L3 at h
+  cc80 [w80Fetch_frame]
+
+theorem w80Mem_frame {s s' : State} {i : Nat} {a : Int} {addrs : List Word} {data : List Byte} {c : Int} {r : Bool}
+    (h : w80Mem s i a addrs data c = .ok (s', r)) : Frame s s' := by
+  unfold w80Mem at h
+  cc80 [w80L3_frame]
+
+theorem w80L1Push_frame {s s' : State} {i : Nat} {a : Int} {addrs : List Word} {data : List Byte} {c : Int} {l1Addr : Int}
+    {l1Data : List Byte} {r : Bool} (h : w80L1Push s i a addrs data c l1Addr l1Data = .ok (s', r)) : Frame s s' := by
+  unfold w80L1Push at h
+  cc80 [w80PushL1_frame]
+
+theorem w80Pend_frame {s s' : State} {i : Nat} {a : Int} {addrs : List Word} {data : List Byte} {nf : Bool} {ps : List Nat}
+    {r : Bool} (h : w80Pend s i a addrs data nf ps = .ok (s', r)) : Frame s s' := by
+  unfold w80Pend at h
+  simp only [bind, Except.bind, pure, Except.pure] at h
+  split at h
+  · cases h
+  · split at h
+    · cases h; exact ⟨rfl, rfl, rfl⟩
+    · split at h
+      · exact w80ToL1_frame h
+      · split at h
+        · cases h
+        · rename_i v hv
+          have f := inL3_frame hv
+          split at h
+          · split at h
+            · cases h
+            · split at h
+              · cases h
+              · exact (w80L1Push_frame h).pre f
+          · exact (w80Mem_frame h).pre f
+
+theorem ccWrite80_frame {s s' : State} {i : Nat} {addrs : List Word} {data : List Byte} {r : Bool}
+    (h : ccWrite80 s i addrs data = .ok (s', r)) : Frame s s' := by
+  unfold ccWrite80 at h
+  cc80 [w80Pend_frame, w80L1Push_frame, w80AfterL1_frame, w80Mem_frame, w80L3_frame, w80Sync_frame, w80L1Step_frame]
+
+theorem ccReadD_frame {s s' : State} {i : Nat} {addrs : List Word} {r : Option (List Byte)}
+    (h : ccReadD s i addrs = .ok (s', r)) : Frame s s' := by
+  unfold ccReadD at h
+  split at h
+  · exact ccRead80_frame h
+  · exact ccRead_frame h
+
+theorem ccWriteD_frame {s s' : State} {i : Nat} {addrs : List Word} {data : List Byte} {r : Bool}
+    (h : ccWriteD s i addrs data = .ok (s', r)) : Frame s s' := by
+  unfold ccWriteD at h
+  split at h
+  · exact ccWrite80_frame h
+  · exact ccWrite_frame h
+
 theorem snoopJob_frame {s s' : State} {i : Nat} {j : SnoopJob} {r : Option SnoopJob}
     (h : snoopJob s i j = .ok (s', r)) : Frame s s' := by
   unfold snoopJob at h
   simp only [bind, Except.bind, pure, Except.pure] at h
   repeat' split at h
   all_goals first | cases h | skip
-  all_goals first | exact ⟨rfl, rfl, rfl⟩ | skip
+  all_goals first
+    | exact ⟨rfl, rfl, rfl⟩
+    | (have hw := ‹writeToL3 _ _ _ = Except.ok _›; have f := writeToL3_frame hw; exact ⟨f.len, f.exe, f.cyc⟩)
 
 theorem snoopJobs_frame (i : Nat) : ∀ (js : List SnoopJob) (s s' : State) (keep keep' : List SnoopJob),
     snoopJobs i js s keep = .ok (s', keep') → Frame s s' := by
@@ -214,15 +437,9 @@ theorem snoopCycle_frame {s s' : State} {i : Nat} (h : snoopCycle s i = .ok s') 
       obtain ⟨s1, keep⟩ := v
       have f1 := snoopJobs_frame _ _ _ _ _ _ hv
       simp only at h
-      split at h
-      · cases h
-      · split at h
-        · cases h; exact f1.trans ⟨rfl, rfl, rfl⟩
-        · split at h
-          · cases h
-          · split at h
-            · cases h
-            · cases h; exact f1.trans ⟨rfl, rfl, rfl⟩
+      repeat' split at h
+      all_goals first | cases h | skip
+      all_goals first | exact f1.trans ⟨rfl, rfl, rfl⟩ | skip
 
 theorem foldlM_frame {α : Type} (f : State → α → M State) (hf : ∀ s a s', f s a = .ok s' → Frame s s') :
     ∀ (l : List α) (s s' : State), l.foldlM f s = .ok s' → Frame s s' := by
@@ -284,7 +501,7 @@ theorem euRun70_frame {app : App} {s s' : State} {i : Nat} {eu : ExecUnit} {r : 
       · cases h
       · rename_i v hv
         obtain ⟨s1, done⟩ := v
-        have f1 := ccWrite_frame hv
+        have f1 := ccWriteD_frame hv
         simp only [Except.ok.injEq, Prod.mk.injEq] at h
         obtain ⟨rfl, _⟩ := h
         have f2 : Frame s1 (if done = true then setCo s1 i Co.start else s1) := by split <;> exact ⟨rfl, rfl, rfl⟩
@@ -315,7 +532,7 @@ theorem euReadPoll_frame {app : App} {s s' : State} {i : Nat} {eu : ExecUnit} {r
   · cases h
   · rename_i v hv
     obtain ⟨s1, d⟩ := v
-    have f1 := ccRead_frame hv
+    have f1 := ccReadD_frame hv
     simp only at h
     split at h
     · cases h; exact EuFrame.of_frame f1
@@ -334,9 +551,10 @@ theorem euPrepare70_frame {app : App} {s s' : State} {i : Nat} {eu : ExecUnit} {
       have fb := Proofs.Mvp61.buAssert_frame b r'
       have f0 : Frame s (setEuB { s with base := Model.Mvp61.buAssert b r' } i eu') :=
         Frame.trans ⟨fb.len.trans fr.len, fb.exe.trans fr.exe, fb.cyc.trans fr.cyc⟩ (setEuB_frame _ _ _)
-      split at h
-      · exact (euReadPoll_frame h).pre (f0.trans (setCo_frame _ _ _))
-      · exact (euRun70_frame h).pre f0
+      repeat' split at h
+      all_goals first
+        | exact (euReadPoll_frame h).pre (f0.trans (setCo_frame _ _ _))
+        | exact (euRun70_frame h).pre f0
 
 theorem euCycle70_frame {app : App} {s s' : State} {i : Nat} {c : Int} {out : EuOut}
     (h : euCycle70 app s i c = .ok (s', out)) : EuFrame s s' := by
@@ -347,13 +565,16 @@ theorem euCycle70_frame {app : App} {s s' : State} {i : Nat} {c : Int} {out : Eu
   · split at h
     · split at h
       · cases h
-      · rename_i s1 h1
-        cases h
-        exact EuFrame.of_frame (((setEuB_frame _ _ _).trans (setCo_frame _ _ _)).trans (ccFlush_frame h1))
-    · split at h
       · split at h
-        · cases h; exact EuFrame.of_frame ⟨rfl, rfl, rfl⟩
-        · exact (euPrepare70_frame h).pre ⟨rfl, rfl, rfl⟩
+        · cases h
+        · rename_i s1 h1
+          cases h
+          exact EuFrame.of_frame (((setEuB_frame _ _ _).trans (setCo_frame _ _ _)).trans (ccFlush_frame h1))
+    · split at h
+      · repeat' split at h
+        all_goals first
+          | (cases h; exact EuFrame.of_frame ⟨rfl, rfl, rfl⟩)
+          | exact (euPrepare70_frame h).pre ⟨rfl, rfl, rfl⟩
       · split at h
         · cases h
         · exact euPrepare70_frame h
@@ -364,7 +585,7 @@ theorem euCycle70_frame {app : App} {s s' : State} {i : Nat} {c : Int} {out : Eu
         · cases h
         · rename_i v hv
           obtain ⟨s1, done⟩ := v
-          have f1 := ccWrite_frame hv
+          have f1 := ccWriteD_frame hv
           simp only [Except.ok.injEq, Prod.mk.injEq] at h
           obtain ⟨rfl, _⟩ := h
           have f2 : Frame s1 (if done = true then setCo s1 i Co.start else s1) := by split <;> exact ⟨rfl, rfl, rfl⟩
@@ -552,6 +773,59 @@ theorem finish70_tail {s s' : State} {h : Halt} {ev : Event} (hf : finish70 s h 
     show s.base.cycles ≤ s.base.cycles + extra
     omega
 
+theorem foldlM_inv {α β : Type} (f : β → α → M β) (P : β → Prop) (hf : ∀ b a b', P b → f b a = .ok b' → P b') :
+    ∀ (l : List α) (b b' : β), P b → l.foldlM f b = .ok b' → P b' := by
+  intro l
+  induction l with
+  | nil => intro b b' hb h; simp only [List.foldlM, pure, Except.pure, Except.ok.injEq] at h; subst h; exact hb
+  | cons a l ih =>
+    intro b b' hb h
+    simp only [List.foldlM, bind, Except.bind] at h
+    split at h
+    · cases h
+    · rename_i b1 h1
+      exact ih b1 b' (hf _ _ _ hb h1) h
+
+theorem finish80_tail {s s' : State} {h : Halt} {ev : Event} (hf : finish80 s h = .ok (s', ev)) : Tail s s' := by
+  unfold finish80 at hf
+  simp only [bind, Except.bind, pure, Except.pure] at hf
+  have h309 : (0 : Int) ≤ Gen.Latency.MemoryAccess := by decide
+  have h50 : (0 : Int) ≤ Gen.Latency.L3Access := by decide
+  split at hf
+  · cases hf
+  · rename_i v hv
+    obtain ⟨s1, extra1⟩ := v
+    have inv1 : Frame s s1 ∧ (0 : Int) ≤ extra1 := by
+      refine foldlM_inv _ (fun (acc : State × Int) => Frame s acc.1 ∧ (0 : Int) ≤ acc.2) ?_ _ _ _ ⟨Frame.refl s, Int.le_refl _⟩ hv
+      intro acc i acc' hacc hi
+      split at hi
+      · cases hi
+      · refine foldlM_inv _ (fun (acc : State × Int) => Frame s acc.1 ∧ (0 : Int) ≤ acc.2) ?_ _ _ _ hacc hi
+        intro a l a' ha hl
+        repeat' split at hl
+        all_goals first | cases hl | skip
+        all_goals first | exact ha | skip
+        all_goals refine ⟨ha.1.trans ?_, ?_⟩
+        all_goals first
+          | (have hw := ‹writeToL3 _ _ _ = Except.ok _›; have f := writeToL3_frame hw; exact ⟨f.len, f.exe, f.cyc⟩)
+          | exact ⟨rfl, rfl, rfl⟩
+          | exact Int.add_nonneg ha.2 h50
+          | exact Int.add_nonneg ha.2 h309
+    simp only at hf
+    split at hf
+    · cases hf
+    · rename_i w hw
+      obtain ⟨mem, extra⟩ := w
+      have hex : (0 : Int) ≤ extra := by
+        refine foldlM_inv _ (fun (acc : List Byte × Int) => (0 : Int) ≤ acc.2) ?_ _ _ _ inv1.2 hw
+        intro a l a' ha hl
+        repeat' split at hl
+        all_goals first | cases hl | skip
+        all_goals (show (0 : Int) ≤ a.2 + Gen.Latency.MemoryAccess; omega)
+      simp only [Except.ok.injEq, Prod.mk.injEq] at hf
+      obtain ⟨rfl, _⟩ := hf
+      exact ⟨inv1.1.len, inv1.1.exe, by show s.base.cycles ≤ s1.base.cycles + extra; rw [inv1.1.cyc]; omega⟩
+
 theorem goRetB70_tail (s : State) : Tail s (goRetB70 s).1 := by
   unfold goRetB70
   split <;> exact ⟨rfl, rfl, Int.le_refl _⟩
@@ -640,7 +914,10 @@ theorem cycleM_tick {app : App} {s s' : State} {ev : Event} (h : cycleM app s = 
         have c2 : s2.base.cycles = s.base.cycles + 1 := f2.2.2.2.trans f1.cyc
         split at h
         · cases h; exact ⟨l2, lo2, hi2, Or.inl (by omega)⟩
-        · have t := finish70_tail h
+        · have t : Tail s2 s' := by
+            split at h
+            · exact finish80_tail h
+            · exact finish70_tail h
           exact ⟨t.len.trans l2, by rw [t.exe]; exact lo2, by rw [t.exe]; exact hi2, Or.inl (by have := t.cyc; omega)⟩
   · split at h
     · -- normal
@@ -655,17 +932,25 @@ theorem cycleM_tick {app : App} {s s' : State} {ev : Event} (h : cycleM app s = 
           have f2 := Proofs.Mvp61.decodeCycle_frame h2
           split at h
           · cases h
-          · rename_i b3 h3
-            have f3 := Proofs.Mvp61.controlCycle_frame h3
+          · rename_i s3 h3
+            have f3 : Proofs.Mvp61.Frame b2 s3.base := by
+              unfold controlStep at h3
+              split at h3
+              · cases h3; exact ⟨rfl, rfl, rfl⟩
+              · simp only [bind, Except.bind, pure, Except.pure] at h3
+                split at h3
+                · cases h3
+                · rename_i b3 hb3
+                  cases h3
+                  exact Proofs.Mvp61.controlCycle_frame hb3
             have f123 := (f1.trans f2).trans f3
-            have l3 : b3.eus.length = s.base.eus.length := f123.len
-            have e3 : b3.executed = s.base.executed := f123.exe
-            have c3 : b3.cycles = s.base.cycles + 1 := f123.cyc
+            have l3 : s3.base.eus.length = s.base.eus.length := f123.len
+            have e3 : s3.base.executed = s.base.executed := f123.exe
+            have c3 : s3.base.cycles = s.base.cycles + 1 := f123.cyc
             split at h
             · simp only [Except.ok.injEq, Prod.mk.injEq] at h
               obtain ⟨rfl, _⟩ := h
-              exact ⟨l3, by show s.base.executed ≤ b3.executed; omega, by show b3.executed ≤ _; omega,
-                     Or.inl (by show s.base.cycles + 1 ≤ b3.cycles; omega)⟩
+              exact ⟨l3, by omega, by omega, Or.inl (by omega)⟩
             split at h
             · cases h
             · rename_i s4 h4
@@ -678,9 +963,9 @@ theorem cycleM_tick {app : App} {s s' : State} {ev : Event} (h : cycleM app s = 
                 simp only [Loop] at h f4 f5
                 have l5 : s5.base.eus.length = s.base.eus.length := (f5.1.trans f4.len).trans l3
                 have lo5 : s.base.executed ≤ s5.base.executed := by
-                  have := f5.2.1; rw [f4.exe] at this; simp only at this; omega
+                  have := f5.2.1; rw [f4.exe] at this; omega
                 have hi5 : s5.base.executed ≤ s.base.executed + s.base.eus.length := by
-                  have := f5.2.2.1; rw [f4.exe, f4.len] at this; simp only at this; omega
+                  have := f5.2.2.1; rw [f4.exe, f4.len] at this; omega
                 have c5 : s5.base.cycles = s.base.cycles + 1 := by rw [f5.2.2.2, f4.cyc]; exact c3
                 split at h
                 · simp only [Except.ok.injEq, Prod.mk.injEq] at h
